@@ -316,7 +316,7 @@ func isImmutableFilter(memoryTriples map[string]*triple.Triple, pQuery *predicat
 
 	trps := make(map[string]*triple.Triple)
 	for _, t := range memoryTriples {
-		if pQuery != nil && pQuery.String() != t.Predicate().String() {
+		if pQuery != nil && UUIDToByteString(pQuery.UUID()) != UUIDToByteString(t.Predicate().UUID()) {
 			continue
 		}
 
@@ -347,7 +347,7 @@ func isTemporalFilter(memoryTriples map[string]*triple.Triple, pQuery *predicate
 
 	trps := make(map[string]*triple.Triple)
 	for _, t := range memoryTriples {
-		if pQuery != nil && pQuery.String() != t.Predicate().String() {
+		if pQuery != nil && UUIDToByteString(pQuery.UUID()) != UUIDToByteString(t.Predicate().UUID()) {
 			continue
 		}
 
@@ -379,7 +379,7 @@ func latestFilter(memoryTriples map[string]*triple.Triple, pQuery *predicate.Pre
 	lastTA := make(map[string]*time.Time)
 	trps := make(map[string]map[string]*triple.Triple)
 	for _, t := range memoryTriples {
-		if pQuery != nil && pQuery.String() != t.Predicate().String() {
+		if pQuery != nil && UUIDToByteString(pQuery.UUID()) != UUIDToByteString(t.Predicate().UUID()) {
 			continue
 		}
 
